@@ -67,7 +67,8 @@ class CenteredDifferences(BaseGradientApproximator):
         n_perturbations = len(input_perturbations)
         self._function_kwargs = kwargs
         parallel_execution = CallableParallelExecution(
-            [self._wrap_function] * n_perturbations, **self._parallel_args
+            [self._wrap_function for _ in range(n_perturbations)],
+            **self._parallel_args,
         )
         output_perturbations = parallel_execution.execute(input_perturbations)
 
@@ -184,7 +185,7 @@ class CenteredDifferences(BaseGradientApproximator):
         comp_step = self._get_opt_step
         if self._parallel:
             self._function_kwargs = kwargs
-            workers = [self._wrap_function] * (n_dim * 2 + 1)
+            workers = [self._wrap_function for _ in range(n_dim * 2 + 1)]
             execution = CallableParallelExecution(workers, **self._parallel_args)
             outputs = execution.execute([
                 x_vect,
